@@ -130,6 +130,14 @@ func genTlv(g *genCtx) {
 		for L := 0; L <= maxL; L++ {
 			rec(nil, L)
 		}
+		// an optional-parameter area longer than 64 KiB: several long values (each length fits 16 bits, the sum does not)
+		for _, ls := range [][]int{{40000, 40000}, {30000, 30000, 30000}, {65531, 9}} {
+			set := []interface{}{}
+			for i, L := range ls {
+				set = append(set, map[string]interface{}{"t": 3 + i, "n": L, "c": 65 + i})
+			}
+			emit(Case{"k": "ser", "kind": kd, "set": set})
+		}
 		emit(Case{"k": "add", "kind": kd, "tag": 2, "v": []int{1}})
 		emit(Case{"k": "add", "kind": kd, "tag": 0, "v": []int{}})
 	}
@@ -189,6 +197,9 @@ func runTlv(c Case, tr *Tracer) {
 			}
 		})
 		tr.emit(Ev{"ev": "Ser", "kind": kd, "set": tlvJSONUnsorted(set), "out": B(out), "len": ln, "panic": pan, "site": kd + ".serialize"})
+		if !pan && len(out) > 0 {
+			parseBoth(kd, out, tr) // ... and what was serialised reads back through every parser
+		}
 	case "perm":
 		set := parseSet(c["set"])
 		var in []byte
